@@ -1355,6 +1355,24 @@ def _closure_body(crate, t):
     return None
 
 
+def variant_const_map(crate, fnpath):
+    """{variant name: constant} for a crate-local function that maps the variants of its (enum) argument to constants (`as_str`)"""
+    bs = [bd for bd in crate.by_path.get(fnpath, []) if bd.kind == 'fn']
+    if len(bs) != 1:
+        return None
+    b = bs[0]
+    meta = {}
+    out = {}
+    for cons, path in mirlib.path_rows(b, meta=meta):
+        vw = cons_view(cons, meta)
+        names = [v for k, v in vw.items() if k.startswith('discr(') and isinstance(v, str)]
+        val = const_value(crate, strip_refs(mirlib.simplify(b.ret_on_path(path))))
+        if len(names) != 1 or val is None or (names[0] in out and out[names[0]] != val):
+            return None
+        out[names[0]] = val
+    return out or None
+
+
 def table_lookup(crate, term):
     """read `TABLE.iter().find(|e| key_of(e) == probe).map*(dflt?, |e| value_of(e))`, `TABLE.iter().position(|e| key_of(e) == probe)`
     and `TABLE[i]`: returns dict(kind='find'|'position'|'index', entries=[entry terms], key=fn(entry)->term, value=fn(entry)->term|None,
@@ -1372,8 +1390,11 @@ def table_lookup(crate, term):
             t = strip_refs(t[2][0])
         else:
             break
-    if is_call(t) and t[3] in ('find', 'position') and len(t[2]) == 2 and is_call(strip_refs(t[2][0]), name='iter'):
-        ents = const_table(crate, t[2][0])
+    src_ = strip_refs(t[2][0]) if is_call(t) and t[2] else None
+    while is_call(src_) and src_[3] in ('copied', 'cloned', 'by_ref') and src_[2]:
+        src_ = strip_refs(src_[2][0])
+    if is_call(t) and t[3] in ('find', 'position') and len(t[2]) == 2 and is_call(src_) and src_[3] in ('iter', 'into_iter'):
+        ents = const_table(crate, src_)
         pb = _closure_body(crate, t[2][1])
         if ents is None or pb is None:
             return None
@@ -1402,7 +1423,17 @@ def table_lookup(crate, term):
             vf = [x[2] for x in find_terms(vr[0][1], lambda y: isinstance(y, tuple) and y and y[0] == 'field' and arg_root(y) == 2 and str(y[2]).lstrip('.').isdigit())]
             vidx = int(str(vf[0]).lstrip('.')) if vf else None
         pick = lambda e, ix: (strip_refs(e[2][ix]) if (ix is not None and e and e[0] == 'agg' and e[1].get('kind') == 'tuple' and ix < len(e[2])) else e)
-        return dict(kind=t[3], entries=ents, key=lambda e: pick(e, kidx), value=(lambda e: pick(e, vidx)) if proj is not None else None,
+        keyf = lambda e: pick(e, kidx)
+        if kidx is None:
+            # the key is computed from the entry by a crate-local function of the entry's variant (`e.as_str() == probe`)
+            ms = [x for x in find_terms(elem_side[0], lambda y: is_call(y) and isinstance(y[1], str) and y[2] and arg_root(strip_refs(y[2][0])) == 2 and
+                                        any(bd.kind == 'fn' for bd in crate.by_path.get(y[1], [])))]
+            if len(ms) == 1:
+                vmap = variant_const_map(crate, ms[0][1])
+                if vmap is None:
+                    return None
+                keyf = lambda e: (('const', vmap[e[1]['variant']]) if (e and e[0] == 'agg' and e[1].get('variant') in vmap) else None)
+        return dict(kind=t[3], entries=ents, key=keyf, value=(lambda e: pick(e, vidx)) if proj is not None else None,
                     probe=env_side[0], default=default)
     ix = find_terms(t, lambda y: isinstance(y, tuple) and y and y[0] == 'index' and const_table(crate, y[1]) is not None)
     if ix:
